@@ -421,4 +421,21 @@ syntax "tie3" ident ident "[" Lean.Parser.Tactic.simpLemma,* "]" : tactic
 macro_rules
   | `(tactic| tie3 $h $hnd [$ls,*]) => `(tactic| (tieNd $h $hnd [$ls,*, Gen.len, Gen.is_empty, Gen.is_full, Gen.inc_start, Gen.dec_start, Gen.inc_size, Gen.dec_size, Gen.front_maybe_uninit_mut, Gen.front_maybe_uninit, Gen.back_maybe_uninit, Gen.back_maybe_uninit_mut, Gen.get_maybe_uninit, Gen.get_maybe_uninit_mut, Gen.slices_uninit_mut, Gen.as_slices, Gen.as_mut_slices, Gen.front, Gen.back, Gen.get, Gen.front_mut, Gen.back_mut, Gen.get_mut, Gen.nth_front, Gen.nth_back, Gen.push_back, Gen.push_front, Gen.try_push_back, Gen.try_push_front, Gen.pop_back, Gen.pop_front, Gen.swap, Gen.swap_remove_back, Gen.swap_remove_front, Gen.drop_range, Gen.truncate_back, Gen.truncate_front, Gen.clear, Gen.remove, Gen.make_contiguous, incStart, decStart, incSize, decSize, frontSlot, backSlot, getSlot, slicesUninitMut, asSlices, asSlicesOf, dassertE, front?, back?, get?, nthFront?, nthBack?, pushBack, pushFront, tryPushBack, tryPushFront, popBack, popFront, swap, swapRemoveBack, swapRemoveFront, dropRange, dropSegments, truncateBack, truncateFront, clear, remove, makeContiguous]; done))
 
+/-- evaluation of a body that *calls* other functions of the fragment whose ties are given as rewrite rules
+(`ls`): the conditions are split (innermost first; impossible combinations pruned by `omega`), the callees are
+replaced by the model's, and what remains is compared — up to arithmetic on the arguments of the calls -/
+syntax "callEval" "[" Lean.Parser.Tactic.simpLemma,* "]" : tactic
+macro_rules
+  | `(tactic| callEval [$ls,*]) => `(tactic| (
+      simp only [$ls,*, getBuf_bind, getBuf_run, ite_run, ite_bind, bind_assoc_run, pure_run, pure_bind_run, liftE_bind,
+        liftE_run, dassert_bind, bind_run, uadd, usub, decide_eq_true_eq, Nat.sub_zero, Nat.zero_add, Nat.add_zero]
+      repeat' (first
+        | rfl
+        | ifsplit1
+        | (simp only [$ls,*, getBuf_bind, getBuf_run, ite_run, ite_bind, bind_assoc_run, pure_run, pure_bind_run,
+             liftE_bind, liftE_run, dassert_bind, dassert_run, bind_run])
+        | split)
+      all_goals (first | rfl | (exfalso; omega) |
+        (congr 1 <;> first | rfl | omega | (congr 1 <;> first | rfl | omega)))))
+
 end CircBuf
